@@ -176,6 +176,37 @@ pub fn suite_format_unicode(ctx: &Ctx, thorough: bool, props: &str) {
             }
         });
     }
+    // a write that fails half-way (a sink that accepts only k bytes) leaves nothing behind: the next value still prints as itself
+    {
+        struct Limited { left: usize, got: String }
+        impl std::fmt::Write for Limited {
+            fn write_str(&mut self, s: &str) -> std::fmt::Result {
+                if s.len() > self.left { self.left = 0; return Err(std::fmt::Error); }
+                self.left -= s.len(); self.got.push_str(s); Ok(())
+            }
+        }
+        let texts = ["pkg:generic/some/long-name@1.0?a=b&c=d#x/y", "pkg:npm/%40angular/cli@15.0.0", "pkg:t/n?os=linux", "pkg:t/n"];
+        let vals: Vec<GenericPurl<String>> = texts.iter().map(|t| GenericPurl::<String>::from_str(t).unwrap()).collect();
+        for (i, first) in vals.iter().enumerate() {
+            for k in 0..=texts[i].len() {
+                for (j, second) in vals.iter().enumerate() {
+                    ctx.eval();
+                    use std::fmt::Write;
+                    let mut sink = Limited { left: k, got: String::new() };
+                    let _ = write!(sink, "{}", first);
+                    let got = second.to_string();
+                    if got != texts[j] {
+                        ctx.violate("C03.format", "to_string() == documented shape and escaping (after an earlier write failed)", json!({"first": texts[i], "sink_capacity": k, "second": texts[j]}), got, texts[j].to_string());
+                    }
+                    let again = GenericPurl::<String>::from_str(&second.to_string());
+                    if again.as_ref().ok() != Some(second) {
+                        ctx.violate("C01.roundtrip", "canonical string parses to an equal PURL", json!({"first": texts[i], "sink_capacity": k, "second": texts[j]}), format!("{:?}", again.as_ref().map(|p| Obs::of(p))), texts[j].to_string());
+                        ctx.violate("C09.reparse", "the string form yields the same field values (after an earlier write failed)", json!({"first": texts[i], "sink_capacity": k, "second": texts[j]}), format!("{:?}", again.as_ref().map(|p| Obs::of(p))), texts[j].to_string());
+                    }
+                }
+            }
+        }
+    }
     ctx.sample(json!({"char": "U+0026", "position": "qualifier value"}));
 }
 
